@@ -62,6 +62,18 @@ pub fn scenario(seed: u64, i: usize, cells: &[Cell], tier: Tier) -> Scenario {
     if cell.protocol == trippy_core::Protocol::Tcp && r.chance(1, 3) {
         wcfg.faults.bind_in_use_pct = r.range(5, 40) as u8;
     }
+    // a third of the worlds are not honest: some genuine responses are accompanied by a near-miss
+    // forgery (other destination / protocol / identifier) or followed by a late copy one or two
+    // rounds later - "none is invented"
+    if r.chance(1, 3) {
+        let round = crate::sim::ns(tcfg.max_round).max(1_000_000);
+        wcfg.adversary = crate::world::Adversary {
+            forgeries: vec![(crate::world::Forgery::OtherDest, 4), (crate::world::Forgery::OtherProto, 4), (crate::world::Forgery::OtherTracer, 4)],
+            offset_ns: (-40_000, 200_000),
+            late_pct: 6,
+            late_delay_ns: (round / 2, round * 2),
+        };
+    }
     // transient send failures (IPv4 ICMP / UDP: "host unreachable" from sendto marks just that
     // probe as failed): the failed probes must be reported and counted as such
     if crate::e2e::is_probe_failed_errno(cell.protocol, cell.v6, !cell.unprivileged, crate::world::Op::SendTo, libc::EHOSTUNREACH) && r.chance(1, 4) {
@@ -198,7 +210,7 @@ pub fn run_scenario(seed: u64, i: usize, cells: &[Cell], tier: Tier) -> Outcome 
 
 pub fn run(tier: Tier, seed: u64, only: Option<usize>) -> i32 {
     let mut rep = Report::new("C01", "exploration", tier, seed);
-    rep.rule = "one scenario = one builder-accepted configuration cell (protocol x family x strategy x port direction x privilege x extension mode) with drawn numerics (first/max ttl, inflight, packet size, tos, pattern, initial sequence, timing) run for 6..60 rounds over a seeded random topology (0..14 hops, ECMP, silent / rate limited / lossy / duplicating hops, silent targets, delays up to beyond the round length; TCP cells with local port collisions, IPv4 ICMP / UDP cells with transient send failures); non-trivial = at least one complete, one awaited and one out-of-order or duplicate response was observed; distinct by (cell, topology hash, timing class)".into();
+    rep.rule = "one scenario = one builder-accepted configuration cell (protocol x family x strategy x port direction x privilege x extension mode) with drawn numerics (first/max ttl, inflight, packet size, tos, pattern, initial sequence, timing) run for 6..60 rounds over a seeded random topology (0..14 hops, ECMP, silent / rate limited / lossy / duplicating hops, silent targets, delays up to beyond the round length; a third of the worlds with near-miss forgeries and late copies, TCP cells with local port collisions, IPv4 ICMP / UDP cells with transient send failures); non-trivial = at least one complete, one awaited and one out-of-order or duplicate response was observed; distinct by (cell, topology hash, timing class)".into();
     rep.assumptions = vec![
         "the simulated socket layer models Linux raw / datagram / stream socket behaviour (IP_HDRINCL header fill-in, ICMP error quoting, EINPROGRESS connects)".into(),
         "virtual time: clock_gettime is interposed; every clock read ticks 1ns so timestamps identify socket calls uniquely".into(),
